@@ -1438,6 +1438,8 @@ def _isinstance(it, args, kwargs):
         raise Unsupported(f"isinstance with {t!r}")
     if hasattr(x, "pyvc_isinstance"):
         return x.pyvc_isinstance(it, t)
+    if name == "slice":
+        return isinstance(x, SliceVal)
     if type(x).__name__ == "DType":
         from .models_np import kind_is
         if name == "StringDType":
@@ -1898,7 +1900,7 @@ def make_builtins(it):
         "classmethod": ModelFn("classmethod", _classmethod), "staticmethod": ModelFn("staticmethod", _staticmethod),
         "type": ModelFn("type", _type), "dir": ModelFn("dir", _dir), "hash": ModelFn("hash", _hash), "next": ModelFn("next", _next), "iter": ModelFn("iter", _iter),
         "sorted": ModelFn("sorted", _sorted),
-        "bytes": TypeObj("bytes"), "int": TypeObj("int"), "str": TypeObj("str", ctor=_str_ctor), "bool": TypeObj("bool"), "float": TypeObj("float"),
+        "slice": TypeObj("slice"), "bytes": TypeObj("bytes"), "int": TypeObj("int"), "str": TypeObj("str", ctor=_str_ctor), "bool": TypeObj("bool"), "float": TypeObj("float"),
         "object": TypeObj("object", methods=dict(OBJECT_METHODS)),
         "True": True, "False": False, "None": None,
         "TypeError": TypeObj("TypeError"), "ValueError": TypeObj("ValueError"),
@@ -1959,6 +1961,9 @@ def _itemgetter(it, args, kwargs):
     return speclib.ItemGetter(it, args)
 
 
+is_deepcopy = z3.Function("is_deepcopy", V, BOOL)      # ghost predicate: the object is the result of copy.deepcopy
+
+
 def _deepcopy(it, args, kwargs):
     x = args[0]
     ctx = it.ctx
@@ -1967,6 +1972,7 @@ def _deepcopy(it, args, kwargs):
         # immutable / deep-copied to equal values: assumed)
         r = new_ref(ctx, "dcopy")
         D = heap_D(ctx)
+        ctx.assumptions.append(is_deepcopy(r))          # ghost: this object came out of copy.deepcopy (nothing nested in it is shared)
         ctx.assumptions.append(is_adict(r) == is_adict(x))
         ctx.assumptions.append(is_dict(r) == is_dict(x))
         ctx.heap["D"] = z3.Store(D, r, D[x])
